@@ -3,7 +3,7 @@
 # development (full .vo), extract the model, compile the OCaml driver.
 set -u
 cd "$(dirname "$0")"
-export PYTHONPATH=/repo/blackbird_python PYTHONHASHSEED=0
+export PYTHONPATH=${BB_REPO:-/repo}/blackbird_python PYTHONHASHSEED=0
 /venv/bin/python - <<'PY'
 import sys, os
 sys.path.insert(0, os.path.join(os.getcwd(), "lib"))
